@@ -89,7 +89,7 @@ Qed.
 (* agreement of a position function with C02's layout *)
 Fixpoint pagree (posf : nat -> N) (chs : list bool) (k : nat) (p : Z) (b : W.body) : Prop :=
   match b, chs with
-  | (_, e) :: r, c :: cs => posf k = Z.to_N p /\ pagree posf cs (k + cnt c e) (p + WE.esize c p e)%Z r
+  | (_, e) :: r, c :: cs => posf k = Z.to_N p /\ pagree posf cs (cnt c e + k) (p + WE.esize c p e)%Z r
   | _, _ => posf k = Z.to_N p
   end.
 Lemma pagree_head posf chs k p b : pagree posf chs k p b -> posf k = Z.to_N p.
@@ -116,7 +116,7 @@ Proof.
   1-3: destruct (WE.olabel_is last l); [|discriminate]; injection HL as <-; split; [exact Hp|]; exists k; split; [reflexivity|tauto].
   destruct HA as [H1 H2]. destruct (WE.olabel_is lb l).
   - injection HL as <-. split; [exact Hp|]. exists k. split; [reflexivity|exact H1].
-  - pose proof (W2.esize_nonneg c p e). apply (IH cs (k + cnt c e)%nat (p + WE.esize c p e)%Z last l t); [lia|exact H2|exact HL].
+  - pose proof (W2.esize_nonneg c p e). apply (IH cs (cnt c e + k)%nat (p + WE.esize c p e)%Z last l t); [lia|exact H2|exact HL].
 Qed.
 
 (* ---------------------------------------------------------------------------------------------- *)
@@ -159,36 +159,42 @@ Proof. intros. lia. Qed.
 Lemma entry_layout ch T k p c e rest : (0 <= p)%Z -> entry_in e = true -> ch_at ch k (ch_entry c e) ->
   layout_from ch k (Z.to_N p) (tr_entry T k c e ++ rest)
   = (if is_cond e && c then [Z.to_N p; Z.to_N p + 3] else [Z.to_N p])
-    ++ layout_from ch (k + cnt c e) (Z.to_N (p + WE.esize c p e)) rest.
+    ++ layout_from ch (cnt c e + k) (Z.to_N (p + WE.esize c p e)) rest.
 Proof.
   intros Hp Hin Hch.
-  destruct e as [bs|[op inv|op wop] l|d lo hi ts|d ps]; cbn [tr_entry ch_entry cnt is_cond andb WE.esize] in *.
+  destruct e as [bs|[op inv|op wop] l|d lo hi ts|d ps]; cbn [tr_entry ch_entry cnt is_cond andb WE.esize Nat.add] in *.
   - destruct (entry_in_plain bs Hin) as [B PI]. cbn [app layout_from]. rewrite (ch_at_0 _ _ _ _ Hch).
-    rewrite (plain_size _ _ PI B). rewrite Nat.add_1_r. do 2 f_equal. unfold W.zlen. lia.
+    rewrite (plain_size _ _ PI B). do 2 f_equal. unfold W.zlen. lia.
   - destruct (kind_cond _ _ Hin) as [E1 E2]. destruct c.
     + cbn [app layout_from]. rewrite (ch_at_0 _ _ _ _ Hch), (ch_at_1 _ _ _ _ _ Hch).
       rewrite (size_br16 _ _ _ _ E2), (size_br32 _ _ _ _ goto_w_entry).
-      replace (S (S k)) with (k + 2)%nat by lia. do 3 f_equal. lia.
+      do 3 f_equal. lia.
     + cbn [app layout_from]. rewrite (ch_at_0 _ _ _ _ Hch), (size_br16 _ _ _ _ E1).
-      rewrite Nat.add_1_r. do 2 f_equal. lia.
+      do 2 f_equal. lia.
   - destruct (kind_jump _ _ Hin) as [E1 E2]. cbn [app layout_from]. rewrite (ch_at_0 _ _ _ _ Hch). destruct c.
-    + rewrite (size_br32 _ _ _ _ E2). rewrite Nat.add_1_r. do 2 f_equal. lia.
-    + rewrite (size_br16 _ _ _ _ E1). rewrite Nat.add_1_r. do 2 f_equal. lia.
-  - cbn [app layout_from size]. rewrite map_length, Nat.add_1_r. do 2 f_equal.
+    + rewrite (size_br32 _ _ _ _ E2). do 2 f_equal. lia.
+    + rewrite (size_br16 _ _ _ _ E1). do 2 f_equal. lia.
+  - cbn [app layout_from size]. rewrite map_length. do 2 f_equal.
     rewrite pad_eq by exact Hp. pose proof (W2.pad_bounds p). unfold W.zlen. lia.
-  - cbn [app layout_from size]. rewrite map_length, Nat.add_1_r. do 2 f_equal.
+  - cbn [app layout_from size]. rewrite map_length. do 2 f_equal.
     rewrite pad_eq by exact Hp. pose proof (W2.pad_bounds p). unfold W.zlen. lia.
 Qed.
 
-Lemma body_in_cons lb e r : body_in ((lb, e) :: r) = true ->
-  entry_in e = true /\ (r = [] -> is_cond e = false) /\ body_in r = true.
+Lemma body_in_cons lb e r c cs : body_in (c :: cs) ((lb, e) :: r) = true ->
+  entry_in e = true /\ (r = [] -> is_cond e && c = false) /\ body_in cs r = true.
 Proof.
   cbn [body_in]. intros H. apply andb_true_iff in H. destruct H as [H H3]. apply andb_true_iff in H. destruct H as [H1 H2].
-  repeat split; try assumption. intros ->. destruct (is_cond e); [discriminate|reflexivity].
+  repeat split; try assumption. intros ->. destruct (is_cond e && c); [discriminate|reflexivity].
+Qed.
+Lemma body_in_of_simple : forall b chs, body_in_simple b = true -> body_in chs b = true.
+Proof.
+  induction b as [|[lb e] r IH]; intros [|c cs] H; try reflexivity. cbn [body_in body_in_simple] in *.
+  apply andb_true_iff in H. destruct H as [H H3]. apply andb_true_iff in H. destruct H as [H1 H2].
+  rewrite H1, (IH cs H3). destruct r; [|reflexivity]. destruct (is_cond e); [discriminate|reflexivity].
 Qed.
 
 (* the layout C01's encoder computes for the translated body is C02's layout *)
-Lemma layout_pagree ch T : forall b chs k p, length chs = length b -> (0 <= p)%Z -> body_in b = true ->
+Lemma layout_pagree ch T : forall b chs k p, length chs = length b -> (0 <= p)%Z -> body_in chs b = true ->
   ch_at ch k (chl_from chs b) ->
   pagree (fun j => nth (j - k) (layout_from ch k (Z.to_N p) (tr_from T chs k b)) 0) chs k p b.
 Proof.
@@ -196,18 +202,18 @@ Proof.
     cbn [pagree tr_from chl_from].
   - rewrite Nat.sub_diag. reflexivity.
   - apply body_in_cons in Hin. destruct Hin as (He & _ & Hr).
-    apply ch_at_app in Hch. destruct Hch as [Hc1 Hc2]. rewrite ch_entry_length in Hc2.
+    apply ch_at_app in Hch. destruct Hch as [Hc1 Hc2]. rewrite ch_entry_length, (Nat.add_comm k (cnt c e)) in Hc2.
     rewrite (entry_layout ch T k p c e _ Hp He Hc1). rewrite Nat.sub_diag.
     split; [destruct (is_cond e && c); reflexivity|].
     pose proof (W2.esize_nonneg c p e) as Hs.
     assert (Hl' : length cs = length r) by (cbn [length] in Hl; lia).
-    specialize (IH cs (k + cnt c e)%nat (p + WE.esize c p e)%Z Hl' ltac:(lia) Hr Hc2).
+    specialize (IH cs (cnt c e + k)%nat (p + WE.esize c p e)%Z Hl' ltac:(lia) Hr Hc2).
     revert IH. apply pagree_ext. intros j Hj.
     assert (Hcnt : cnt c e = if is_cond e && c then 2%nat else 1%nat).
     { destruct e as [bs|[op inv|op wop] l|d lo hi ts|d ps]; cbn [cnt is_cond andb]; try destruct c; reflexivity. }
     destruct (is_cond e && c); rewrite Hcnt in *.
-    + replace (j - k)%nat with (S (S (j - (k + 2))))%nat by lia. reflexivity.
-    + replace (j - k)%nat with (S (j - (k + 1)))%nat by lia. reflexivity.
+    + replace (j - k)%nat with (S (S (j - (2 + k))))%nat by lia. reflexivity.
+    + replace (j - k)%nat with (S (j - (1 + k)))%nat by lia. reflexivity.
 Qed.
 
 (* ---------------------------------------------------------------------------------------------- *)
@@ -266,18 +272,18 @@ Qed.
 
 (* one entry: C01's encoder on the translated instruction(s) gives the bytes C02's encoder gives *)
 Lemma entry_encode ch posf T L k p c e bs rest :
-  (0 <= p)%Z -> posf k = Z.to_N p -> (is_cond e && c = true -> posf (k + 2)%nat = Z.to_N (p + 8)) ->
+  (0 <= p)%Z -> posf k = Z.to_N p -> (is_cond e && c = true -> posf (2 + k)%nat = Z.to_N (p + 8)) ->
   lab_agree posf T L -> entry_in e = true -> ch_at ch k (ch_entry c e) ->
   WE.enc_entry c L p e = Some bs -> WE.adm_entry c L p e = true ->
   encode_from ch posf k (Z.to_N p) (tr_entry T k c e ++ rest)
-  = match encode_from ch posf (k + cnt c e) (Z.to_N (p + WE.esize c p e)) rest with
+  = match encode_from ch posf (cnt c e + k) (Z.to_N (p + WE.esize c p e)) rest with
     | Some bs' => Some (bs ++ bs') | None => None end.
 Proof.
   intros Hp Hk Hk2 HA Hin Hch HE HAd.
-  destruct e as [bs0|[op inv|op wop] l|d lo hi ts|d ps]; cbn [tr_entry ch_entry cnt is_cond andb WE.esize WE.enc_entry WE.adm_entry] in *.
+  destruct e as [bs0|[op inv|op wop] l|d lo hi ts|d ps]; cbn [tr_entry ch_entry cnt is_cond andb WE.esize WE.enc_entry WE.adm_entry Nat.add] in *.
   - (* Plain *)
     injection HE as <-. destruct (entry_in_plain bs0 Hin) as [B PI]. cbn [app].
-    rewrite Nat.add_1_r. apply enc_cons; rewrite (ch_at_0 _ _ _ _ Hch).
+    apply enc_cons; rewrite (ch_at_0 _ _ _ _ Hch).
     + apply plain_enc; assumption.
     + rewrite (plain_size _ _ PI B). unfold W.zlen. lia.
   - (* conditional *)
@@ -288,7 +294,7 @@ Proof.
       rewrite wfits32_eq in HAd. cbn [app].
       rewrite (enc_cons ch posf k (Z.to_N p) _ _ [inv; 0; 8] (Z.to_N p + 3)).
       * rewrite (enc_cons ch posf (S k) (Z.to_N p + 3) _ _ (W.GOTO_W :: W.be32 (t - (p + 3))) (Z.to_N (p + 8))).
-        -- replace (S (S k)) with (k + 2)%nat by lia. destruct (encode_from ch posf (k + 2) (Z.to_N (p + 8)) rest); reflexivity.
+        -- change (2 + k)%nat with (S (S k)). destruct (encode_from ch posf (S (S k)) (Z.to_N (p + 8)) rest); reflexivity.
         -- rewrite (ch_at_1 _ _ _ _ _ Hch). rewrite wbe32_eq. apply (enc1_br32 _ _ _ _ _ _ goto_w_entry); [|exact HAd].
            apply (rel_off_agree posf T L _ (p + 3) l t HA El); lia.
         -- rewrite (ch_at_1 _ _ _ _ _ Hch), (size_br32 _ _ _ _ goto_w_entry). lia.
@@ -296,7 +302,7 @@ Proof.
         apply (enc1_br16 _ _ _ _ _ _ E2); [|reflexivity].
         unfold rel_off. rewrite (Hk2 eq_refl). lia.
       * rewrite (ch_at_0 _ _ _ _ Hch), (size_br16 _ _ _ _ E2). reflexivity.
-    + rewrite wfits16_eq in HAd. cbn [app]. rewrite Nat.add_1_r.
+    + rewrite wfits16_eq in HAd. cbn [app].
       apply (enc_cons ch posf k (Z.to_N p) _ _ (op :: W.be16 (t - p))); rewrite (ch_at_0 _ _ _ _ Hch).
       * rewrite wbe16_eq. apply (enc1_br16 _ _ _ _ _ _ E1); [|exact HAd].
         apply (rel_off_agree posf T L _ p l t HA El Hp eq_refl).
@@ -304,7 +310,7 @@ Proof.
   - (* goto / jsr *)
     destruct (kind_jump _ _ Hin) as [E1 E2].
     destruct (L l) as [t|] eqn:El; [|discriminate]. injection HE as <-. unfold WE.tgt_ok in HAd. rewrite El in HAd.
-    cbn [app]. rewrite Nat.add_1_r. destruct c.
+    cbn [app]. destruct c.
     + rewrite wfits32_eq in HAd. apply (enc_cons ch posf k (Z.to_N p) _ _ (wop :: W.be32 (t - p))); rewrite (ch_at_0 _ _ _ _ Hch).
       * rewrite wbe32_eq. apply (enc1_br32 _ _ _ _ _ _ E2); [|exact HAd].
         apply (rel_off_agree posf T L _ p l t HA El Hp eq_refl).
@@ -322,7 +328,7 @@ Proof.
     unfold WE.tgt_ok in A2. rewrite Ed in A2. rewrite wfits32_eq in A2.
     destruct (arms_agree posf T L p HA Hp ts tts EM A3) as [G1 G2].
     apply Z.leb_le in A4. apply Z.eqb_eq in A5. unfold W.zlen in A5.
-    cbn [app]. rewrite Nat.add_1_r.
+    cbn [app].
     apply (enc_cons ch posf k (Z.to_N p) _ _ ([W.TABLESWITCH] ++ WE.zeros (WE.pad p) ++ W.be32 (td - p) ++ W.be32 lo ++ W.be32 hi
                                              ++ flat_map (fun t => W.be32 (t - p)) tts)).
     + rewrite (ch_at_0 _ _ _ _ Hch). unfold enc1. cbn [c_fill fp]. rewrite map_length.
@@ -343,7 +349,7 @@ Proof.
     unfold WE.tgt_ok in A2. rewrite Ed in A2. rewrite wfits32_eq in A2.
     destruct (pairs_agree posf T L p HA Hp ps kts EM A3 Hin) as (G1 & G2 & G3).
     apply Z.leb_le in A5. unfold W.zlen, W.i32max in A5.
-    cbn [app]. rewrite Nat.add_1_r.
+    cbn [app].
     apply (enc_cons ch posf k (Z.to_N p) _ _ ([W.LOOKUPSWITCH] ++ WE.zeros (WE.pad p) ++ W.be32 (td - p) ++ W.be32 (W.zlen ps)
                                              ++ flat_map (fun kt => W.be32 (fst kt) ++ W.be32 (snd kt - p)) kts)).
     + rewrite (ch_at_0 _ _ _ _ Hch). unfold enc1. cbn [c_fill fp]. rewrite map_length.
@@ -362,7 +368,7 @@ Qed.
 
 (* ENCODING, whole bodies: under ANY position function that agrees with C02's layout and labels *)
 Lemma body_encode ch posf T L : lab_agree posf T L -> forall b chs k p w,
-  length chs = length b -> (0 <= p)%Z -> pagree posf chs k p b -> body_in b = true ->
+  length chs = length b -> (0 <= p)%Z -> pagree posf chs k p b -> body_in chs b = true ->
   ch_at ch k (chl_from chs b) ->
   WE.encode chs L p b = Some w -> WE.admissible chs L p b = true ->
   encode_from ch posf k (Z.to_N p) (tr_from T chs k b) = Some w.
@@ -374,12 +380,12 @@ Proof.
     destruct (WE.encode cs L (p + WE.esize c p e) r) as [rest|] eqn:E2; [|discriminate]. injection HE as <-.
     apply andb_true_iff in HAd. destruct HAd as [Ad1 Ad2].
     apply body_in_cons in Hin. destruct Hin as (He & Hlast & Hr).
-    apply ch_at_app in Hch. destruct Hch as [Hc1 Hc2]. rewrite ch_entry_length in Hc2.
+    apply ch_at_app in Hch. destruct Hch as [Hc1 Hc2]. rewrite ch_entry_length, (Nat.add_comm k (cnt c e)) in Hc2.
     destruct HP as [P1 P2]. pose proof (W2.esize_nonneg c p e) as Hs.
     assert (Hl' : length cs = length r) by (cbn [length] in Hl; lia).
     rewrite (entry_encode ch posf T L k p c e bs _ Hp P1); try assumption.
     + assert (Hp' : (0 <= p + WE.esize c p e)%Z) by lia.
-      rewrite (IH cs (k + cnt c e)%nat (p + WE.esize c p e)%Z rest Hl' Hp' P2 Hr Hc2 E2 Ad2). reflexivity.
+      rewrite (IH cs (cnt c e + k)%nat (p + WE.esize c p e)%Z rest Hl' Hp' P2 Hr Hc2 E2 Ad2). reflexivity.
     + intros Hc. apply andb_true_iff in Hc. destruct Hc as [Hc1' ->].
       destruct e as [bs0|[op inv|op wop] l|d lo hi ts|d ps]; try discriminate. cbn [cnt WE.esize] in P2.
       apply pagree_head in P2. exact P2.
